@@ -209,6 +209,14 @@ func judge(ex *execution) Verdicts {
 		}
 	}
 	gotNil := ex.resp == nil
+	if c.HugePod && ex.err != nil && len(ex.invoked) == 0 && strings.Contains(ex.err.Error(), "message length") {
+		// a request above the protocol's message limit cannot be relayed to any plugin: it
+		// is refused before the first plugin is asked, which no property speaks about
+		for _, o := range []*Verdict{&v.C01, &v.C02, &v.C03, &v.C04, &v.C05} {
+			o.Skip = "oversized_request_refused"
+		}
+		return v
+	}
 
 	if e.SpellingMix {
 		// only C03's differential part (combined vs sequential through the same generator) is
